@@ -1,0 +1,19 @@
+//go:build verif
+
+package ha
+
+// Verification seam for property C13, connection-lifecycle layer (runtime-monitoring harness
+// in /verif). Exported read-only wrapper around unexported fields; no behaviour of its own.
+
+// VerifC13SSEClientBacklog returns, for every SSE client channel registered on the active
+// (field s.sseClients, read under its lock), the number of messages queued in it that its
+// stream handler has not taken yet.
+func (s *HASyncer) VerifC13SSEClientBacklog() map[string]int {
+	s.sseClientsMu.RLock()
+	defer s.sseClientsMu.RUnlock()
+	m := make(map[string]int, len(s.sseClients))
+	for id, ch := range s.sseClients {
+		m[id] = len(ch)
+	}
+	return m
+}
